@@ -271,3 +271,21 @@ package ext
 //@   ensures err == nil ==> 0 <= n && n <= len(buf)
 //@   loop 0:
 //@     invariant hsInv(s) && s.HLen + len(s.B) <= len(old(buf)) && arr(s.B) == parseArr
+
+// ---- C14: the prefetch of a streamed body takes at most the body off the wire (at most 8 KiB of it) ----
+//@ func ReadBodyWithStreaming(zr, contentLength, maxBodySize, dst) b, err
+//@   props C14, C11
+//@   replay-import github.com/cloudwego/hertz/pkg/common/test/mock
+//@   replay-go zr := mock.NewZeroCopyReader(strings.Repeat("x", 1<<16)); b, err := ReadBodyWithStreaming(zr, -2, 1024, nil); if err == nil && len(b) > 16*1024 { fmt.Printf("VCGO-VIOLATED a read-until-close body is prefetched completely (%d bytes buffered) although the limit is 1024 and at most 8 KiB are meant to be prefetched\n", len(b)) }
+//@   requires zr != nil && zr.avail >= 0 && contentLength <= 70368744177664 && maxBodySize <= 70368744177664
+//@   modifies zr.pos, zr.avail, zr.failed, mem
+//@   allocates
+//@   top-ensures contentLength >= 0 && err == nil ==> len(b) <= contentLength && len(b) <= 8192 && zr.pos == old(zr.pos) + len(b) && forall(k, 0, len(b), b[k] == wire(zr, old(zr.pos) + k))
+//@   top-ensures contentLength >= 0 && err == nil ==> len(b) == ite(contentLength <= 8192, contentLength, 8192)
+
+// A released stream object goes back into its pool with every field cleared (C09 for the stream object).
+//@ func bodyStream.reset(rs)
+//@   props C09, C14
+//@   modifies rs._all
+//@   top-ensures isFresh(rs)
+
